@@ -80,8 +80,8 @@ EncodeFrame(c, k, m) ==
   ELSE IF IsContinue(c, m) THEN ContFrame(m)
   ELSE FullFrame(m)
 
-\* every correct encoding of m in context c (a full frame is merely less compact)
-Encodings(c, k, m) == {EncodeFrame(c, k, m), FullFrame(m)}
+\* f is a correct encoding of m in context c (a full frame is merely less compact)
+IsEncoding(c, k, m, f) == f = EncodeFrame(c, k, m) \/ f = FullFrame(m)
 
 \* context of either end after frame f
 CtxAfter(c, k, f) ==
@@ -113,7 +113,7 @@ CInit(k) == /\ cfg = k /\ enc = Ctx0 /\ dec = Ctx0 /\ wire = <<>> /\ sent = <<>>
 \* the writer puts message m on the stream as frame f
 SendFrame(m, f) ==
   /\ ~damaged
-  /\ f \in Encodings(enc, cfg, m)
+  /\ IsEncoding(enc, cfg, m, f)
   /\ wire' = Append(wire, f)
   /\ enc' = (IF f.k = "cont" THEN [enc EXCEPT !.index = @ + Len(m.ents)]
              ELSE IF f.k = "full" /\ cfg.compact THEN CtxOf(m) ELSE enc)
